@@ -250,6 +250,16 @@ func builtinIntrinsics() map[string]Intrinsic {
 		return m.ctx.Decimal(term(a[0]), e)
 	}
 	I[zz+"Thorough"] = func(m *Machine, fn *ssa.Function, a []Value) Value { return m.ctx.Bool(m.Cfg.Thorough) }
+	I[zz+"TempDir"] = func(m *Machine, fn *ssa.Function, a []Value) Value { return "/zzverif-tmp" }
+	I["github.com/apache/skywalking-banyandb/pkg/fs.NewLocalFileSystem"] = func(m *Machine, fn *ssa.Function, a []Value) Value {
+		// an opaque local file system: every call on it must be redirected by the harness
+		t := resultType(fn)
+		lt := m.E.Prog.ImportedPackage("github.com/apache/skywalking-banyandb/pkg/fs").Type("localFileSystem").Type()
+		c := new(Value)
+		*c = m.zero(lt)
+		_ = t
+		return IfaceV{T: types.NewPointer(lt), V: Ptr{c}}
+	}
 	I[zz+"SymbolicMapOrder"] = func(m *Machine, fn *ssa.Function, a []Value) Value { m.locals["maporder"] = true; return nil }
 	I[zz+"UF64"] = func(m *Machine, fn *ssa.Function, a []Value) Value {
 		name := m.strArg(a[0])
@@ -666,6 +676,49 @@ func builtinIntrinsics() map[string]Intrinsic {
 	I["github.com/cespare/xxhash/v2.Sum64String"] = func(m *Machine, fn *ssa.Function, a []Value) Value { return xx(m, m.strBytes(a[0])) }
 	crc := ufBytes("crc32", 32)
 	I["hash/crc32.ChecksumIEEE"] = func(m *Machine, fn *ssa.Function, a []Value) Value { return crc(m, m.sliceBytes(a[0])) }
+	timeIntrinsics(I)
+	joinPaths := func(m *Machine, fn *ssa.Function, a []Value) Value {
+		var parts []string
+		for _, e := range a[0].(SliceV).A {
+			s, ok := concStr(e)
+			if !ok {
+				s = "<sym>"
+			}
+			parts = append(parts, s)
+		}
+		return strings.Join(parts, "/")
+	}
+	I["path.Join"], I["path/filepath.Join"] = joinPaths, joinPaths
+	I["encoding/json.Marshal"] = func(m *Machine, fn *ssa.Function, a []Value) Value {
+		return TupleV{SliceV{A: []Value{m.ctx.BV('{', 8), m.ctx.BV('}', 8)}}, IfaceV{}}
+	}
+	I["strconv.Itoa"] = func(m *Machine, fn *ssa.Function, a []Value) Value {
+		t := term(a[0])
+		if !t.IsConst() {
+			return "<itoa>"
+		}
+		return fmt.Sprint(t.SignedVal())
+	}
+	I["strconv.FormatInt"] = I["strconv.Itoa"]
+	I["strconv.Atoi"] = func(m *Machine, fn *ssa.Function, a []Value) Value {
+		s, ok := concStr(a[0])
+		if !ok {
+			m.unsupported("strconv.Atoi of a symbolic string")
+		}
+		var v int64
+		if _, err := fmt.Sscanf(s, "%d", &v); err != nil || fmt.Sprint(v) != s {
+			return TupleV{m.ctx.BV(0, 64), m.newError("strconv.Atoi: invalid syntax", nil)}
+		}
+		return TupleV{m.ctx.BV(uint64(v), 64), IfaceV{}}
+	}
+	I["context.Background"] = func(m *Machine, fn *ssa.Function, a []Value) Value { return m.ctxValue(nil, nil, nil) }
+	I["context.TODO"] = I["context.Background"]
+	I["context.WithValue"] = func(m *Machine, fn *ssa.Function, a []Value) Value { return m.ctxValue(a[0], a[1], a[2]) }
+	I["context.WithCancel"] = func(m *Machine, fn *ssa.Function, a []Value) Value {
+		return TupleV{a[0], m.noopCancel()}
+	}
+	I["context.WithTimeout"] = func(m *Machine, fn *ssa.Function, a []Value) Value { return TupleV{a[0], m.noopCancel()} }
+	I["context.WithDeadline"] = I["context.WithTimeout"]
 	I["internal/bytealg.MakeNoZero"] = func(m *Machine, fn *ssa.Function, a []Value) Value {
 		n := m.concInt(a[0], "MakeNoZero")
 		s := make([]Value, n)
